@@ -147,8 +147,18 @@ func domSave(r *engine.Run) {
 		childCommit := false
 		for _, a := range c.AnonFuncs {
 			engine.Instrs(a, func(in ssa.Instruction) {
-				if cl, ok := in.(*ssa.Call); ok && cl.Call.StaticCallee() == f {
-					childCommit = true
+				if cl, ok := in.(*ssa.Call); ok {
+					if cl.Call.StaticCallee() == f {
+						childCommit = true
+					} else if h := cl.Call.StaticCallee(); h != nil && h.Pkg == c.Pkg && recvNamed(h) == recvNamed(c) && len(h.Blocks) > 0 {
+						// the closure's body moved into a method of the trie that commits the child
+						engine.Instrs(h, func(in2 ssa.Instruction) {
+							if c2, ok := in2.(*ssa.Call); ok && c2.Call.StaticCallee() == f {
+								childCommit = true
+								r.Touch(h)
+							}
+						})
+					}
 				}
 			})
 		}
@@ -301,11 +311,53 @@ func agreePurge(r *engine.Run) {
 		}
 	}
 	if handler == nil {
+		// the bookkeeping moved into a trie method the closure calls for each hash
+		for _, a := range f.AnonFuncs {
+			engine.Instrs(a, func(in ssa.Instruction) {
+				c, ok := in.(*ssa.Call)
+				if !ok {
+					return
+				}
+				if h := c.Call.StaticCallee(); h != nil && h.Pkg == f.Pkg && len(h.Blocks) > 0 {
+					engine.Instrs(h, func(in2 ssa.Instruction) {
+						if st, ok := in2.(*ssa.Store); ok {
+							if fld := engine.FieldOf(st.Addr); fld != nil && fld.Name() == "created" {
+								handler = a
+							}
+						}
+					})
+				}
+			})
+		}
+	}
+	if handler == nil {
 		r.Anchor(rule, fmt.Errorf("unresolved anchor: created-hash handler in %s", fn(f)))
 		return
 	}
 	r.Touch(handler)
 	purged := map[string]bool{}
+	// the handler's body, and the trie methods it hands each received hash to
+	bodies := []*ssa.Function{handler}
+	engine.Instrs(handler, func(in ssa.Instruction) {
+		if c, ok := in.(*ssa.Call); ok {
+			if h := c.Call.StaticCallee(); h != nil && h.Pkg == f.Pkg && len(h.Blocks) > 0 && recvNamed(h) == recvNamed(f) {
+				bodies = append(bodies, h)
+				r.Touch(h)
+			}
+		}
+	})
+	for _, body := range bodies {
+		purgeScan(body, purged)
+	}
+	// fields that feed DeleteNodes' deletes, now or after staging
+	feeds := []string{"deleted", "tempDeleted"}
+	for _, fld := range feeds {
+		r.Check(purged[fld], rule, fn(handler)+"|purge "+fld, r.P.Pos(handler.Pos()), "a re-created hash is removed from "+fld,
+			"a hash that a commit re-creates is not removed from "+fld+", which DeleteNodes later turns into storage deletes: delete + re-add of identical content followed by garbage collection removes live nodes")
+	}
+}
+
+func purgeScan(handler *ssa.Function, purged map[string]bool) {
 	engine.Instrs(handler, func(in ssa.Instruction) {
 		switch x := in.(type) {
 		case *ssa.Call:
@@ -320,12 +372,6 @@ func agreePurge(r *engine.Run) {
 			}
 		}
 	})
-	// fields that feed DeleteNodes' deletes, now or after staging
-	feeds := []string{"deleted", "tempDeleted"}
-	for _, fld := range feeds {
-		r.Check(purged[fld], rule, fn(handler)+"|purge "+fld, r.P.Pos(handler.Pos()), "a re-created hash is removed from "+fld,
-			"a hash that a commit re-creates is not removed from "+fld+", which DeleteNodes later turns into storage deletes: delete + re-add of identical content followed by garbage collection removes live nodes")
-	}
 }
 
 func whoDirtyClear(r *engine.Run) {
